@@ -1107,12 +1107,133 @@ let run_pc_hyrax c =
     end
   end
 
+(* ---------------- IPA (trait-level flow: commitments, single-point openings and their mutations) ---------------- *)
+let gv_tok (v : Field.coq_F list) = if v = [] then "0" else String.concat "," (fs_to v)
+let run_pc_ipa c =
+  let fo = fo () in
+  let maxd = int1 c "max_degree" and sd = int1 c "supported_degree" in
+  match IPA.itrim (nat_of_int maxd) (nat_of_int sd) with
+  | Result.Ok dn ->
+    let d = int_of_nat dn in
+    obs1 "key_len" "N" (string_of_int (d + 1));
+    let n = int1 c "n" in
+    let lps = Array.init n (fun i ->
+        let k x = Printf.sprintf "%s.%d" x i in
+        { Marlin.lp_label = nlabel (int1 c (k "label")); lp_poly = fs_of c (k "poly");
+          lp_bound = opt_nat_tok (str1 c (k "bound")); lp_hiding = opt_nat_tok (str1 c (k "hiding")) }) in
+    let rng = if str1 c "commit_rng" = "some" then Some (fs_of c "ctape") else None in
+    let cm = IPA.i_commit_all fo dn (Array.to_list lps) rng in
+    obs1 "commit" "S" (class_of cm);
+    (match cm with
+     | Result.Ok (cs, draws) ->
+       obs1 "commit_draws" "N" (string_of_int (int_of_nat draws));
+       let cs = Array.of_list cs in
+       Array.iteri (fun i (ic, ir) ->
+           obs (Printf.sprintf "c.%d" i) "L:basis"
+             (gv_tok ic.IPA.ic_comm :: (match ic.IPA.ic_shifted with Some s -> [ gv_tok s ] | None -> []));
+           obs (Printf.sprintf "rand.%d" i) "F"
+             (f_to_str ir.IPA.ir_rand :: (match ir.IPA.ir_shifted with Some s -> [ f_to_str s ] | None -> []))) cs;
+       let npts = int1 c "npts" in
+       let pts = Array.init npts (fun j -> f_of_str (str1 c (Printf.sprintf "pt.%d" j))) in
+       let nops = int1 c "nops" in
+       let recs = Array.make nops None in
+       let tape_of k = if has c k then fs_of c k else [] in
+       for t = 0 to nops - 1 do
+         let k x = Printf.sprintf "%s.%d" x t in
+         match get c (k "op") with
+         | "single" :: pj :: sel ->
+           let chal = fs_of c (k "chal") and vchal = fs_of c (k "vchal") in
+           let pj = int_of_string pj and sel = List.map int_of_string sel in
+           let z = pts.(pj) in
+           let values = List.map (fun i -> Poly.eval fo lps.(i).Marlin.lp_poly z) sel in
+           obs (k "evals") "F" (fs_to values);
+           let items = List.map (fun i -> (((lps.(i), lps.(i).Marlin.lp_bound), fst cs.(i)), snd cs.(i))) sel in
+           let otape = if has c (k "otape") then Some (fs_of c (k "otape")) else Some [] in
+           let r = IPA.i_open fo dn items z chal (tape_of (k "hchal")) otape in
+           obs1 (k "open") "S" (class_of r);
+           (match r with
+            | Result.Ok (((pf, rest), _hrest), nd) ->
+              obs1 (k "nchal") "N" (string_of_int (List.length chal - List.length rest));
+              obs1 (k "open_draws") "N" (string_of_int (int_of_nat nd));
+              let nm = Printf.sprintf "pf.%d" t in
+              obs1 (nm ^ ".rounds") "N" (string_of_int (List.length pf.IPA.ip_l));
+              if pf.IPA.ip_l <> [] then begin
+                obs (nm ^ ".l") "L:basis" (List.map gv_tok pf.IPA.ip_l);
+                obs (nm ^ ".r") "L:basis" (List.map gv_tok pf.IPA.ip_r)
+              end;
+              obs1 (nm ^ ".key") "L:basis" (gv_tok pf.IPA.ip_key);
+              obs1 (nm ^ ".c") "F" (f_to_str pf.IPA.ip_c);
+              (match pf.IPA.ip_hcomm with Some h -> obs1 (nm ^ ".hcomm") "L:basis" (gv_tok h) | None -> ());
+              obs1 (nm ^ ".rand") "F" (f_opt_to_str pf.IPA.ip_rand);
+              let cms = List.map (fun i -> (fst cs.(i), lps.(i).Marlin.lp_bound)) sel in
+              (match IPA.i_check fo dn cms z values pf vchal (tape_of (k "vhchal")) with
+               | Result.Ok ((b, vrest), _) ->
+                 obs1 (k "check") "S" (if b then "accept" else "reject");
+                 obs1 (k "nvchal") "N" (string_of_int (List.length vchal - List.length vrest))
+               | _ -> obs1 (k "check") "S" "refused");
+              recs.(t) <- Some (pj, sel, values, pf)
+            | _ -> ())
+         | _ -> ()
+       done;
+       List.iter (fun (m, mv) ->
+           let name = Printf.sprintf "mut.%d" m in
+           let t = int_of_string (List.nth mv 0) and kind = List.nth mv 1 in
+           let args = List.tl (List.tl mv) in
+           let arg i = List.nth args i in
+           if t < nops && has c (Printf.sprintf "mchal.%d" m) then begin
+             let mchal = fs_of c (Printf.sprintf "mchal.%d" m) in
+             let mh = tape_of (Printf.sprintf "mhchal.%d" m) in
+             let cms = Array.init n (fun i -> (fst cs.(i), lps.(i).Marlin.lp_bound)) in
+             match recs.(t) with
+             | Some (pj, sel, values, pf) ->
+               let pj = ref pj and sel = ref sel and values = ref values and pf = ref pf and ok = ref true in
+               let one = tof Z.one in
+               (match kind with
+                | "value" -> let kk = int_of_string (arg 0) in
+                  if kk < List.length !values then values := List.mapi (fun i v -> if i = kk then fo.Field.fadd v (f_of_str (arg 1)) else v) !values else ok := false
+                | "point" -> pj := int_of_string (arg 0)
+                | "comm_swap" -> let i = int_of_string (arg 0) and j = int_of_string (arg 1) in cms.(i) <- (fst cs.(j), snd cms.(i))
+                | "sponge_pre" -> ()
+                | "drop_poly" -> let kk = int_of_string (arg 0) in
+                  if kk < List.length !sel then begin
+                    sel := List.filteri (fun i _ -> i <> kk) !sel; values := List.filteri (fun i _ -> i <> kk) !values end else ok := false
+                | "comm_mut" ->
+                  let i = int_of_string (arg 0) in
+                  let (ic, b) = cms.(i) in
+                  (match arg 1 with
+                   | "drop_shifted" when ic.IPA.ic_shifted <> None -> cms.(i) <- ({ ic with IPA.ic_shifted = None }, None)
+                   | "relabel_bound" when b <> None -> cms.(i) <- (ic, Some (nat_of_int (int_of_string (arg 2))))
+                   | "add_bound" when b = None -> cms.(i) <- (ic, Some (nat_of_int (int_of_string (arg 2))))
+                   | _ -> ok := false)
+                | ("proof_mut" | "proof_mut_v") ->
+                  let p = !pf in
+                  let droplast l = List.rev (List.tl (List.rev l)) in
+                  (match arg 0 with
+                   | "c_tamper" -> pf := { p with IPA.ip_c = fo.Field.fadd p.IPA.ip_c one }
+                   | "drop_round" when p.IPA.ip_l <> [] -> pf := { p with IPA.ip_l = droplast p.IPA.ip_l; ip_r = droplast p.IPA.ip_r }
+                   | "extra_round_identity" -> pf := { p with IPA.ip_l = p.IPA.ip_l @ [ [] ]; ip_r = p.IPA.ip_r @ [ [] ] }
+                   | "rand_tamper" -> (match p.IPA.ip_rand with Some r -> pf := { p with IPA.ip_rand = Some (fo.Field.fadd r one) } | None -> ok := false)
+                   | "hiding_drop" when p.IPA.ip_hcomm <> None -> pf := { p with IPA.ip_hcomm = None; ip_rand = None }
+                   | _ -> ok := false);
+                  if kind = "proof_mut_v" && !ok then
+                    values := (match !values with v :: tl -> fo.Field.fadd v one :: tl | [] -> [])
+                | _ -> ok := false);
+               if !ok then
+                 obs1 name "S" (decision (match IPA.i_check fo dn (List.map (fun i -> cms.(i)) !sel) pts.(!pj) !values !pf mchal mh with
+                     | Result.Ok ((b, _), _) -> Result.Ok b | Result.Err e -> Result.Err e | Result.Panic -> Result.Panic))
+             | None -> ()
+           end)
+         (indexed c "mut")
+     | _ -> ())
+  | r -> obs1 "trim" "S" (class_of r)
+
 let run_pc c =
   if has c "c19" then run_c19 c else begin
   (match str1 c "scheme" with
    | "marlin" when has c "beta" -> run_pc_marlin c
    | "sonic" when has c "beta" -> run_pc_sonic c
    | "hyrax" when has c "ctape" -> run_pc_hyrax c
+   | "ipa" when has c "ctape" -> run_pc_ipa c
    | _ -> ());
   if has c "c12" then run_c12 c end
 
